@@ -74,8 +74,18 @@ pub struct MapKeys {
     pub reversed: usize,
     /// opaque identity of the key set (the real type is a hash table, src/algorithm/map.rs)
     pub token: u8,
+    /// number of live keys = number of rows the table describes (only maintained by drop / take below)
+    pub len: usize,
 }
 impl MapKeys {
+    /// contract of MapKeys::drop (obligations C16.e3.map.drop.*): the keys of the first min(n, len) rows are retired
+    pub fn drop(&mut self, n: usize) {
+        self.len -= if n < self.len { n } else { self.len };
+    }
+    /// contract of MapKeys::take (obligations C16.e3.map.take.*): only the keys of the first min(n, len) rows stay
+    pub fn take(&mut self, n: usize) {
+        self.len = if n < self.len { n } else { self.len };
+    }
     pub fn reverse(&mut self) {
         self.reversed += 1;
     }
@@ -142,7 +152,7 @@ impl<T> Array<T> {
     /// model of Array::map (src/algorithm/map.rs:50): installs the key set carried by `keys`
     pub fn map(&mut self, keys: Value, _ctx: Context) -> UiuaResult {
         let Value::Keys(token, reversed) = keys else { panic!("map: keys are not a key set (outside the modelled cases)") };
-        self.meta.map_keys = Some(MapKeys { reversed, token });
+        self.meta.map_keys = Some(MapKeys { reversed, token, len: 0 });
         Ok(())
     }
 }
@@ -413,5 +423,49 @@ impl Primitive {
 impl ScalarFill for u8 {
     fn from_f64(x: f64) -> u8 {
         x as u8
+    }
+}
+
+// ---- what Array::drop / drop_impl need ----
+impl Shape {
+    pub fn push(&mut self, d: usize) {
+        self.0.push(d)
+    }
+}
+impl<T: Clone> Data<T> {
+    /// src/cowslice.rs slice: a new handle on a sub-range of the elements
+    pub fn slice(&self, r: impl std::ops::RangeBounds<usize>) -> Data<T> {
+        use std::ops::Bound::*;
+        let lo = match r.start_bound() {
+            Included(x) => *x,
+            Excluded(x) => *x + 1,
+            Unbounded => 0,
+        };
+        let hi = match r.end_bound() {
+            Included(x) => *x + 1,
+            Excluded(x) => *x,
+            Unbounded => self.0.len(),
+        };
+        Data(self.0[lo..hi].to_vec())
+    }
+}
+impl<T: Clone> Array<T> {
+    /// model of Array::rows: the rows as arrays of their own (no metadata)
+    pub fn rows(&self) -> impl Iterator<Item = Array<T>> + '_ {
+        let rl = self.row_len();
+        let shape = Shape(self.shape.0[1..].to_vec());
+        (0..self.row_count()).map(move |i| Array { shape: shape.clone(), data: Data(self.data.0[i * rl..(i + 1) * rl].to_vec()), meta: ArrayMeta::default() })
+    }
+    /// model of Array::from_row_arrays for rows of equal shape (the only case the extracted code produces here)
+    pub fn from_row_arrays(rows: Vec<Array<T>>, _env: &Uiua) -> UiuaResult<Array<T>> {
+        let mut shape = vec![rows.len()];
+        if let Some(r) = rows.first() {
+            shape.extend_from_slice(&r.shape.0);
+        }
+        let mut data = Vec::new();
+        for r in rows {
+            data.extend_from_slice(&r.data.0);
+        }
+        Ok(Array { shape: Shape(shape), data: Data(data), meta: ArrayMeta::default() })
     }
 }
